@@ -126,10 +126,12 @@ package evaluator
 // the key list: every key of the table, ordered by source position (line, column) - the sort itself is the
 // library's (trusted summary: a permutation ordered by the given less function)
 //@ func evaluator.sortedKwargKeys(kwargs) keys
+//@   also     C08 C09
 //@   ensures  fresh(keys) && (forall i int :: {keys[i]} 0 <= i && i < len(keys) ==> has(kwargs, keys[i]))
 //@   assigns  nothing
 //@   loop 1 invariant fresh(keys) && (forall i int :: {keys[i]} 0 <= i && i < len(keys) ==> has(kwargs, keys[i]))
 //@ func evaluator.kwargKeyBefore(k1, k2) res
+//@   also     C08 C09
 //@   requires k1 != nil && k2 != nil
 //@   ensures  k1.Src != nil && k2.Src != nil && k1.Src.Pos.Line != k2.Src.Pos.Line ==> (res <==> k1.Src.Pos.Line < k2.Src.Pos.Line)
 //@   ensures  k1.Src != nil && k2.Src != nil && k1.Src.Pos.Line == k2.Src.Pos.Line && k1.Src.Pos.Column != k2.Src.Pos.Column ==> (res <==> k1.Src.Pos.Column < k2.Src.Pos.Column)
